@@ -218,12 +218,20 @@ def c14(rep, env):
         MI.check_ofb_one_backend(rep, fb)
         MI.check_aliases(rep, fb)
         MI.check_no_own_keyinit(rep, fb)
+        # "a core driven block-wise equals the byte-level cipher": the wrapper mixes single-block and
+        # parallel calls, so the parallel bodies must agree with the one-block kernels
+        only(rep, lambda r: SM.check_ctr_backend(r, fb), pre("par.closed-form", "ctr.ks.block", "ctr.ks.advance"))
+        only(rep, lambda r: SM.check_belt(r, fb, parts=("par", "def")), pre("par.closed-form", "belt.ks.block", "belt.ks.advance"))
+        only(rep, lambda r: BM.check_par(r, fb, crates={"ofb", "cfb_mode"}), pre("par."))
+        only(rep, lambda r: BM.check_inplace(r, fb, crates={"ofb", "cfb_mode"}), pre("alias.same"))
     per_config(rep, env, f)
 
 
 def c15(rep, env):
     def f(fb):
         BM.check_dependence(rep, fb)
+        # the propagation pattern over a multi-block call is that of the iterated one-block kernel
+        only(rep, lambda r: BM.check_par(r, fb), pre("par.closed-form"))
         only(rep, lambda r: SM.check_ctr_backend(r, fb), pre("ctr.ks.data-independent", "ctr.ks.block"))
         only(rep, lambda r: SM.check_belt(r, fb, parts=("def",)), pre("belt.ks.data-independent", "belt.ks.block"))
     per_config(rep, env, f)
